@@ -35,7 +35,9 @@ def configs(tier, seed):
                     # an add() that the arbiter refuses (initiator lacks err/rty) before / between the valid ones
                     "refused_at": (k % N) if (k % 4 == 2 and ("err" in af or "rty" in af)) else None,
                     # the arbiter is elaborated once after this many initiators and extended afterwards
-                    "staged": (1 + k % N) if (k % 5 == 3 and N > 1) else None})
+                    "staged": (1 + k % N) if (k % 5 == 3 and N > 1) else None,
+                    # all initiators carry the SAME path (several cores each exposing ("cpu", "dbus")) / no path at all
+                    "names": "same" if k % 7 == 4 else ("none" if k % 7 == 6 else None)})
     # hand-picked representatives
     add(1, [], [[]], 8, [8])
     add(1, ["lock", "stall"], [["stall"]], 16, [16])
@@ -91,8 +93,9 @@ def maker(cfg):
         fe = (lambda fs: [wishbone.Feature(f) for f in fs]) if cfg.get("enum") else (lambda fs: fs)
         arb = wishbone.Arbiter(addr_width=cfg["aw"], data_width=cfg["dw"], granularity=cfg["agran"],
                                features=fe(cfg["afeat"]))
+        path_of = {"same": lambda i: ("cpu", "dbus"), "none": lambda i: ()}.get(cfg.get("names"), lambda i: (f"i{i}",))
         intrs = [wishbone.Interface(addr_width=cfg["aw"], data_width=cfg["dw"], granularity=cfg["igran"][i],
-                                    features=fe(cfg["ifeat"][i]), path=(f"i{i}",)) for i in range(cfg["N"])]
+                                    features=fe(cfg["ifeat"][i]), path=path_of(i)) for i in range(cfg["N"])]
         ghosts = []
         for i, it in enumerate(intrs):
             if cfg.get("refused_at") == i:
@@ -260,8 +263,9 @@ def analyse(cfg, h, stats, out, pid, relation="full"):
             owner[r] = passing[0]
             owner.setdefault(("witness", r), witness)
             continue
-        if pid != "C08":
+        if pid != "C08" and not (relation == "ack" and not passing):
             return None           # ownership is C08's subject; C09 cannot proceed without it
+        # (C09, reduced relation, NO candidate at all: a reachable state in which nobody is served - reported below)
         # violation: replay each candidate's witness on the simulator
         ok_all = True
         for i, w in witness.items():
@@ -271,12 +275,17 @@ def analyse(cfg, h, stats, out, pid, relation="full"):
             ok_all = ok_all and ok
         if not ok_all or len(passing) > 1:
             raise Inconclusive(f"ownership counterexample at state {r} does not reproduce (passing={passing})")
+        what = (f"C08 no initiator owns the shared bus in reachable arbiter state {list(r)} "
+                f"(configuration {cfg_key(cfg)}): every candidate fails the ownership relation for some input") if pid == "C08" else \
+               (f"C09 in reachable arbiter state {list(r)} no initiator is served: for every initiator there is an input "
+                f"under which it does not receive the target's acknowledge, so ownership cannot pass to a requester "
+                f"(configuration {cfg_key(cfg)})")
         out.violations.append({
-            "key": f"no-single-owner@{cfg_key(cfg)}",
-            "what": f"C08 no initiator owns the shared bus in reachable arbiter state {list(r)} "
-                    f"(configuration {cfg_key(cfg)}): every candidate fails the ownership relation for some input",
-            "query": "exactly-one-owner", "cfg": cfg, "path": R.path[r],
+            "key": f"no-single-owner@{cfg_key(cfg)}", "what": what,
+            "query": "exactly-one-owner", "cfg": cfg, "path": R.path[r], "relation": relation,
             "witness": {str(i): w for i, w in witness.items()}, "stimulus": R.path[r], "prefix": 0, "k": 0, "detail": {}})
+        from ..bmc import mark_violation
+        mark_violation()
         return None
     return R, owner
 
